@@ -61,6 +61,9 @@ enum Op {
     /// approve on the underlying asset token (vault world)
     AssetApprove { o: usize, s: usize, a: i128, live: u32 },
     Advance(u32),
+    /// an allowance over the tokens held by the token contract's OWN address, requested from outside:
+    /// nobody can supply that owner's authorization, so this must be refused whoever signs
+    ApproveForTokenItself { s: usize, a: i128 },
 }
 
 #[derive(Clone, Debug, PartialEq, Eq, Hash)]
@@ -144,6 +147,7 @@ impl Tok {
             Op::VDeposit { op, from, a } => (c, "deposit", (*a, u(*op), u(*from), u(*op)).into_val(e)),
             Op::AssetApprove { o, s, a, live } => (i.asset.clone().unwrap(), "approve", (u(*o), u(*s), *a, *live).into_val(e)),
             Op::Advance(_) => unreachable!(),
+            Op::ApproveForTokenItself { s, a } => (c.clone(), "approve", (c, u(*s), *a, envx::now(e) + 100).into_val(e)),
         }
     }
 
@@ -151,6 +155,10 @@ impl Tok {
         if let Op::Advance(k) = op {
             envx::advance(&i.e, *k);
             return true;
+        }
+        if let Op::ApproveForTokenItself { .. } = op {
+            let (c, f, args) = self.call(i, op);
+            return auth::call_signed(&i.e, &c, f, args, &[]).is_ok();
         }
         let (c, f, args) = self.call(i, op);
         call_mocked(&i.e, &c, f, args).is_ok()
@@ -317,6 +325,7 @@ impl World for Tok {
                 }
             }
         }
+        v.push(Op::ApproveForTokenItself { s: 0, a: 1 });
         v.push(Op::Advance(1));
         v.push(Op::Advance(3));
         if th {
@@ -341,6 +350,7 @@ impl World for Tok {
             Op::VDeposit { .. } => "vault.deposit(owner)",
             Op::AssetApprove { .. } => "asset.approve",
             Op::Advance(_) => "advance",
+            Op::ApproveForTokenItself { .. } => "approve(owner = the token contract itself)",
         }
         .to_string()
     }
@@ -377,6 +387,23 @@ impl World for Tok {
             ensure!(post.bal == pre.bal && post.abal == pre.abal, "balances-on-advance", "balances changed by time passing");
             m.obs = post;
             return Ok(true);
+        }
+        if let Op::ApproveForTokenItself { s, .. } = op {
+            let (c, f, args) = self.call(i, op);
+            let bystander = Address::generate(&i.e);
+            auth::back(&i.e, &bystander);
+            for (who, signers) in [("nobody", vec![]), ("the spender", vec![i.u[*s].clone()]), ("a bystander", vec![bystander])] {
+                let r = auth::call_signed(&i.e, &c, f, args.clone(), &signers);
+                ensure!(
+                    r.is_err(),
+                    "allowance-without-owner-authorization",
+                    "approve(owner = the token contract's own address, spender {}, ..) succeeded with {} signing: an allowance over the contract's holdings was created without the owner's authorization",
+                    NAMES[*s],
+                    who
+                );
+                cx.stats.count("approve-for-the-token-itself-refused", 1);
+            }
+            return Ok(false);
         }
         let (c, f, args) = self.call(i, op);
         let r = call_mocked(&i.e, &c, f, args.clone());
@@ -446,7 +473,7 @@ impl World for Tok {
                     spend(&mut x_aallow, *from, *oper, paid, "asset")?;
                 }
             }
-            Op::Advance(_) => unreachable!(),
+            Op::Advance(_) | Op::ApproveForTokenItself { .. } => unreachable!(),
         }
         let _ = &mut expect_principal;
         // ---- nobody else's balance may decrease
@@ -560,7 +587,7 @@ fn main() {
                     &["approve", "transfer", "transfer_from", "burn", "burn_from", "vault.redeem(operator)", "vault.withdraw(operator)", "vault.deposit(operator)", "asset.approve", "advance"],
                     &["approve", "transfer", "transfer_from", "burn", "burn_from", "vault.redeem(operator)", "vault.withdraw(operator)", "vault.deposit(operator)"],
                 );
-                rep.require_counter(&["auth-probes"]);
+                rep.require_counter(&["auth-probes", "approve-for-the-token-itself-refused"]);
             }
         },
     );
